@@ -31,7 +31,7 @@ func init() {
 	}
 	Registry["C15"] = &Check{
 		Scenarios: c15Scenarios,
-		Rule: "Server.Serve with three connections plus a fourth offered after the fault; accept script: every placement of <=2 temporary accept errors among the offers (temporary errors alternate between temporary-only, like EMFILE, and temporary-and-timeout, like EAGAIN); connection A suffers one fault from {handler panic, undecodable header with trailing bytes, disconnect in the middle of a message} at every position 1..3 of its three-message sequence; connections B, C and D exchange two request/answer pairs each with bodies that name their connection (the handler checks that the body belongs to the header); after A's fault the application registers a further handler on the running ServeMux, and the first handler of D also writes to A's (failed) diam.Conn, which must simply return an error; C and D are offered only after that, and C's first message is held inside its body until D has been served completely (so a read buffer shared across connections is overwritten); every ordering of environment steps, timers and blocking hand-overs at preemption bound 0 (quick: each accept placement with three of the nine fault/position pairs; thorough: the full product, and preemption bound 1 for the placement without accept errors); back-off sleeps run on the virtual clock. Four scenarios put 9, 10, 12 and 40 consecutive temporary accept errors between two connections. One scenario accepts a connection as TLS whose peer sends 7 bytes of a handshake record and falls silent (later connections must be accepted and served). One scenario accepts a connection as TLS while its peer sends plain Diameter (the handshake fails: the transport must be closed, the other connection served). Three scenarios (bound 1 / 2) put the fault {panic, undecodable header, cut} on a connection whose peer has stopped reading while the handler of a healthy connection is blocked inside a Write to it: the faulty transport is closed all the same, the blocked handler is released with an error and its connection goes on being served. Five scenarios (bound 0 / 1) make the faulty connection a multistream (SCTP) association {handler panic, undecodable header, association ending inside a header / inside a body by EOF / by reset}. A runtime fatal error (unlock of an unlocked mutex) is modelled as unrecoverable and reported. Three further scenarios (preemption bound 1, thorough 2) put the fault at the third message of a connection whose first handler has requested CloseNotify, so that the notifier goroutine is running when the connection fails.",
+		Rule: "Server.Serve with three connections plus a fourth offered after the fault; accept script: every placement of <=2 temporary accept errors among the offers (temporary errors alternate between temporary-only, like EMFILE, and temporary-and-timeout, like EAGAIN); connection A suffers one fault from {handler panic (raised in the handler itself or, at even positions, 80 calls below it), undecodable header with trailing bytes, disconnect in the middle of a message} at every position 1..3 of its three-message sequence; connections B, C and D exchange two request/answer pairs each with bodies that name their connection (the handler checks that the body belongs to the header); after A's fault the application registers a further handler on the running ServeMux, and the first handler of D also writes to A's (failed) diam.Conn, which must simply return an error; C and D are offered only after that, and C's first message is held inside its body until D has been served completely (so a read buffer shared across connections is overwritten); every ordering of environment steps, timers and blocking hand-overs at preemption bound 0 (quick: each accept placement with three of the nine fault/position pairs; thorough: the full product, and preemption bound 1 for the placement without accept errors); back-off sleeps run on the virtual clock. Four scenarios put 9, 10, 12 and 40 consecutive temporary accept errors between two connections. One scenario accepts a connection as TLS whose peer sends 7 bytes of a handshake record and falls silent (later connections must be accepted and served). One scenario accepts a connection as TLS while its peer sends plain Diameter (the handshake fails: the transport must be closed, the other connection served). Three scenarios (bound 1 / 2) put the fault {panic, undecodable header, cut} on a connection whose peer has stopped reading while the handler of a healthy connection is blocked inside a Write to it: the faulty transport is closed all the same, the blocked handler is released with an error and its connection goes on being served. Five scenarios (bound 0 / 1) make the faulty connection a multistream (SCTP) association {handler panic, undecodable header, association ending inside a header / inside a body by EOF / by reset}. A runtime fatal error (unlock of an unlocked mutex) is modelled as unrecoverable and reported. Three further scenarios (preemption bound 1, thorough 2) put the fault at the third message of a connection whose first handler has requested CloseNotify, so that the notifier goroutine is running when the connection fails.",
 		Assume: []string{"data-race freedom between visible operations (audited separately with -race)"},
 		QuickBudget: 150, ThoroughBudget: 2400,
 	}
@@ -178,7 +178,9 @@ func srvBody(o srvOpts) func() {
 			}
 			if o.panicAt[name] == int(m.Header.EndToEndID) {
 				st.events = append(st.events, "panic "+id)
-				panic("handler panic (injected)")
+				// the panic is raised directly in the handler or, for faults at an even position, 80
+				// calls below it (application code calls through layers; the trace is long)
+				panicDeep(80 * (1 - o.panicAt[name]%2))
 			}
 			a := m.Answer(2001)
 			a.Header.HopByHopID, a.Header.EndToEndID = m.Header.HopByHopID, m.Header.EndToEndID
@@ -769,6 +771,16 @@ func c08RelayBlocked(withTimeouts bool, bound int) *Scenario {
 	}
 	return &Scenario{Name: fmt.Sprintf("dispatch/relay-to-a-peer-that-does-not-read/server-timeouts=%v", withTimeouts), Body: body, Check: check, Bound: bound, Horizon: 10 * time.Second,
 		Outcome: func(s *vs.Sched) string { return fmt.Sprint(c08rb.handledB) }}
+}
+
+// panicDeep panics depth calls below its caller.
+//
+//go:noinline
+func panicDeep(depth int) int {
+	if depth <= 0 {
+		panic("handler panic (injected)")
+	}
+	return panicDeep(depth-1) + 1
 }
 
 // c15FaultWhileWriteStuck: connection A's peer has stopped reading; the handler of healthy
